@@ -100,6 +100,15 @@ CLAIMS['C36'] = dict(
          'replayed (raw <script> in the page) and repaired by a fix: commit; the file-name flow is a recorded known finding.',
     design='3/C36', note='Flow-insensitive (no path conditions); "exactly once" and the pygments rendering are not decided.')
 
+CLAIMS['C14'] = dict(
+    technique='static analysis: markup model of the C++ dump writers (escaping lint on every run-time operand in attribute values) and writer/reader agreement with the Python ast of addons/cppcheckdata.py',
+    text='Decides (a) every run-time operand that the dump writers place in an attribute value (150+ operands in 10 writer functions) is numeric, an id, '
+         'literal-valued, or passes ErrorLogger::toxml; (b) for each dump element that cppcheckdata.py maps to a class, the attributes it reads are written '
+         'under that element, id-reference attributes written are read, and *Id fields are resolved in setId(). The unescaped library name of the pinned '
+         'tree was replayed (ill-formed dump) and repaired; the unread valueType-containerId reference is a known finding; three raw token-spelling '
+         'operands are listed as not decided.',
+    design='3/C14', note='Bracket-link symmetry and AST forest shape are properties of run-time data and are not decided. Element text content (as opposed to attribute values) is not checked.')
+
 NOT_APPLICABLE = {
     'C01': 'soundness of inferred values vs. concrete executions of arbitrary programs; needs an executing/symbolic oracle, no structural necessary condition in valueflow.cpp',
     'C02': 'same as C01, for container sizes',
